@@ -58,6 +58,11 @@ def obligations(ctx, tier):
                                                       (lambda A=A: lambda W, env: ("val", W.wrap(A, env[0].v)))()) for n, v in prim_reps(ty)])
                     fid2 = "<%s as cast::CastFrom<%s>>::cast_from" % (ty, T_(A))
                     out += core.g_row(K, PROP, fid2, arith.reps(A, "T", (lambda ty=ty: lambda W, env: ("val", _prim(ty, env[0].v)))()))
+                    # values whose lowest digit has its top bit set / is all ones (a digit must never be sign-extended on its own)
+                    db = {"u8": 8, "u16": 16, "u32": 32, "u64": 64}[DIGIT[A]]
+                    dv = [("dtop", 1 << (db - 1)), ("dmax", (1 << db) - 1), ("ndtop", -(1 << (db - 1))), ("d2top", (1 << (2 * db - 1)) + 5)]
+                    out += core.g_row(K, PROP, fid2, [(n, (lambda v=v, A=A: lambda W: {0: W.wrap(A, v)})(),
+                                                       (lambda ty=ty: lambda W, env: ("val", _prim(ty, env[0].v)))()) for n, v in dv])
             for ty, vals in (("bool", [("f", False), ("t", True)]),):
                 fid = tr(A, "cast::CastFrom", [ty], "cast_from")
                 out += core.g_row(K, PROP, fid, [(n, (lambda v=v: lambda W: {0: v})(), (lambda A=A: lambda W, env: ("val", W.wrap(A, int(env[0]))))()) for n, v in vals])
@@ -113,10 +118,10 @@ def same_digit_cast_rows(K):
     truncation are decided by the wrapper (M < N, sign -> fill digit); cast_up / cast_down are trusted by contract"""
     F = K.F
     out = []
-    FAM = [("BUint", "BInt"), ("BUintD32", "BIntD32"), ("BUintD16", "BIntD16"), ("BUintD8", "BIntD8")]
-    for U, I in FAM:
-        for Tn in (U, I):
-            for Sn in (U, I):
+    DB = {"BUint": 64, "BInt": 64, "BUintD32": 32, "BIntD32": 32, "BUintD16": 16, "BIntD16": 16, "BUintD8": 8, "BIntD8": 8}
+    for Tn in ADTS:
+        for Sn in ADTS:
+            if True:
                 fid = "<%s<N> as cast::CastFrom<%s<M>>>::cast_from" % (Tn, Sn)
                 if F.lookup(fid) is None:
                     out.append(core.missing(PROP, "G", K, fid))
@@ -137,7 +142,13 @@ def same_digit_cast_rows(K):
                     return (kind, env_fn, exp_fn)
                 reps = [mk(k) for k in ("zero", "one", "neg1", "hi", "lo", "mid", "top", "negmid", "alt")]
                 old = core.WORLDS_FOR
-                core.WORLDS_FOR = lambda f: [(2, 1), (2, 3), (3, 2), (1, 2), (3, 3), (2, 2), (4, 1), (1, 4)]
+                if DB[Tn] == DB[Sn]:
+                    pairs = [(2, 1), (2, 3), (3, 2), (1, 2), (3, 3), (2, 2), (4, 1), (1, 4)]
+                else:
+                    # different digit types (the digit loops are not decided: anything before them is): (target digits N,
+                    # source digits M) for widths 64 / 192 / 256 on either side, incl. sources wider than 128 bits
+                    pairs = sorted({(tw // DB[Tn], sw // DB[Sn]) for tw in (64, 192, 256) for sw in (64, 192, 256)})
+                core.WORLDS_FOR = (lambda pairs: lambda f: pairs)(pairs)
                 try:
                     out += core.g_row(K, PROP, fid, reps)
                 finally:
